@@ -5,6 +5,11 @@
 package main
 
 import (
+	"github.com/duo-labs/webauthn/webauthn"
+	"strings"
+	"encoding/json"
+	"encoding/base64"
+	"crypto/elliptic"
 	"net/url"
 	"testing"
 	"time"
@@ -92,6 +97,33 @@ func runC01Flow(t *testing.T, cases []map[string]interface{}, ev *vEvents) {
 				q.Path, q.Form = bootstrapOtpAuthPath, url.Values{"OTP": {"otp-mallory"}}
 			}
 			take(w.Do(q))
+		case "u2f_lost_token", "webauthn_lost_token":
+			good, lost := newU2FToken("flow-good"), newU2FToken("flow-lost")
+			p, _, _, err := w.st.LoadUserProfile("alice")
+			vMust(err)
+			p.U2fAuthData = map[int64]*u2fAuthData{1: {Enabled: true, Name: "good", Registration: good.registration(), CreatedAt: time.Unix(1700000000, 0)}}
+			p.WebauthnData = map[int64]*webauthAuthData{7: {Enabled: false, Name: "lost", CreatedAt: time.Unix(1690000000, 0),
+				Credential: webauthn.Credential{ID: lost.handle, AttestationType: "fido-u2f", PublicKey: elliptic.Marshal(elliptic.P256(), lost.key.X, lost.key.Y)}}}
+			vMust(w.st.SaveUserProfile("alice", p))
+			ck := map[string]string{authCookieName: start}
+			b := w.Do(vReq{Method: "GET", Path: webAuthnAuthBeginPath, Cookies: ck})
+			var opt struct {
+				PublicKey struct {
+					Challenge string `json:"challenge"`
+				} `json:"publicKey"`
+			}
+			json.Unmarshal(b.Body, &opt)
+			raw, derr := base64.RawURLEncoding.DecodeString(strings.TrimRight(opt.PublicKey.Challenge, "="))
+			if derr != nil {
+				raw, _ = base64.StdEncoding.DecodeString(opt.PublicKey.Challenge)
+			}
+			ch := base64.RawURLEncoding.EncodeToString(raw)
+			if vStr(c, "via") == "u2f_lost_token" {
+				body, _ := json.Marshal(lost.signResponse(ch))
+				take(w.Do(vReq{Method: "POST", Path: u2fSignResponsePath, Cookies: ck, RawBody: body, BodyType: "application/json"}))
+			} else {
+				take(w.Do(vReq{Method: "POST", Path: webAuthnAuthFinishPath, Cookies: ck, RawBody: lost.webauthnAssertion(ch), BodyType: "application/json"}))
+			}
 		case "botp_rolecert_other":
 			w.armBootstrapOTP("svc", "otp-svc", time.Hour)
 			q := role()
